@@ -8,6 +8,7 @@ from .isomsg import *
 from .ipmfile import *
 
 PROPERTY = 'C10'
+DEBUG_LOG = ['message/latin_1/vbs', 'framing/latin_1/1014']      # obligations that are also explored with debug logging switched on
 PYTHON_O = ['framing/latin_1/vbs', 'message/latin_1/1014']      # obligations that are also explored with the modules compiled as under python -O
 ASSUMPTIONS = [
     'files of n records; the records before the fault are well-formed messages of symbolic length (MTI + DE2 / DE3+DE63), the fault position k is '
